@@ -15,6 +15,8 @@ sets=(
  "simhost|pstall=3,stalllen=200,tickskew=1,phold=300,holdlen=300,smyield=400,engyield=300,finalreads=1"
  "simhost|pmember=30,hosts=5,voters=3,snapshot=5,overhead=0,ccwindow=80,holdlen=800,smyield=100,election=5,ppartition=8,pheal=3,checkquorum=0,prevote=0"
  "simhost|sm=3,hosts=3,snapshot=25,overhead=0,syncinterval=10,smyield=600,pcrash=12,prestart=100,replaywindow=60"
+ "simhost|ballast=1,snapworkers=1,smyield=600,pstop=25,prestart=80,psnapreq=40,snapshot=5,overhead=0,phold=400,holdlen=300,pcrash=2,steps=2500"
+ "simhost|ballast=1,snapworkers=1,snapshot=5,overhead=0,psnapreq=20,smyield=300,fsyield=200,pcrash=10,pstop=6,ppartition=8,ops=40"
  "simhost/import|pmember=12,hosts=5"
  "l0/logstore|" "l0/snapio|" "l0/chunks|" "l0/entrylog|" "l0/frames|" "l0/pending|" "l0/rsmtwin|"
 )
